@@ -37,15 +37,20 @@ def host_has_aes():
     return False
 
 
+CFG_HEADER = {"aesni": "aesni.h", "sw": "none.h", "nicpu0": "aesni_nocpuid.h"}
+
+
 def build(cfg, wipe=False):
-    """cfg in {'aesni', 'sw'}; returns (exe, err)."""
+    """cfg in {'aesni', 'sw', 'nicpu0'}; returns (exe, err).  nicpu0 = the AES-NI build whose run-time
+    CPU detection answers "no AES-NI" (compiled without the CPUID probe)."""
     name = "drv_aes_%s%s" % (cfg, "_wipe" if wipe else "_asan")
+    ni = cfg in ("aesni", "nicpu0")
     return vlib.build_c(
-        name, "drv_aes.c", SRCS_NI if cfg == "aesni" else SRCS_SW,
+        name, "drv_aes.c", SRCS_NI if ni else SRCS_SW,
         cflags=QUIET + (["-DDRV_WIPE"] if wipe else []),
         ldflags=["-lcrypto"], wraps=["malloc", "free"] if wipe else [],
-        asan=not wipe, cpuconfig=os.path.join(CPUCFG, "aesni.h" if cfg == "aesni" else "none.h"),
-        per_file_flags=NI_FLAGS if cfg == "aesni" else None)
+        asan=not wipe, cpuconfig=os.path.join(CPUCFG, CFG_HEADER[cfg]),
+        per_file_flags=NI_FLAGS if ni else None)
 
 
 SEL_WRAPS = ["malloc", "crypto_aes_key_expand_aesni", "crypto_aes_encrypt_block_aesni", "crypto_aesctr_aesni_stream"]
@@ -525,11 +530,17 @@ def check_aes_wipe(ctx):
         cases.append("ctr " + " ".join(toks))
         ctx.count("aes.wipe.init-stream-free")
     allc, seen = [], set()
-    for cfg in ("aesni", "sw"):
+    for cfg in ("aesni", "sw", "nicpu0"):
         exe, err = build(cfg, wipe=True)
         if not exe:
             ctx.fail(sub, "build", cfg, "C driver (%s, wipe) does not build: %s" % (cfg, err))
             continue
+        if cfg == "nicpu0":
+            rc, lines, _ = vlib.run_lines(exe, "path\n", timeout=60)
+            if not (lines and lines[0].startswith("path 0 cpu=0")):
+                ctx.fail(sub, "tie", "path", "AES-NI build with the CPU probe compiled out reports '%s' (expected the software path)"
+                         % (lines[0] if lines else "<no output>"))
+                continue
         impl, st = vlib.run_sharded(exe, cases)
         for rc, e in st:
             if rc != 0:
@@ -551,7 +562,9 @@ def check_aes_wipe(ctx):
     ctx.record(sub, allc, seen,
                "every block released by crypto_aes_key_free / crypto_aes_key_free_aesni / crypto_aesctr_free inspected inside "
                "a wrapped free() (size from the wrapped malloc, blocks pre-filled with 0xbe): must be all-zero and must not "
-               "contain the raw key; -O2 build as in the repository; event sequence compared with the release-path model",
+               "contain the raw key; -O2 build as in the repository; event sequence compared with the release-path model; three "
+               "configurations: AES-NI build on this CPU, software-only build, AES-NI build whose CPU probe answers no (OpenSSL key "
+               "objects freed by the software tail as compiled with CPUSUPPORT_X86_AESNI)",
                samples=[cases[0][:120]] if cases else [])
 
 
